@@ -1,7 +1,7 @@
 /-
   C01 — A command starts only after everything it depends on has finished.
 -/
-import N2V.Lemmas.SchedWant
+import N2V.Lemmas.SchedExamples
 namespace N2V.C01
 open N2V N2V.Sched
 
@@ -79,5 +79,43 @@ theorem want_never_restarts (g : Graph) (s s' : S) (f : Nat) (h : want g s f = .
   let e := (want_lateEq' g s s' f h).1
   ⟨e b _ (Or.inr (Or.inl rfl)), e b _ (Or.inr (Or.inr (Or.inl rfl))),
    e b _ (Or.inr (Or.inr (Or.inr rfl))), e b _ (Or.inl rfl)⟩
+
+/-! ### Whole invocations, at trace level
+
+`Run.build_tinv`: every trace the model of `run::build` can produce satisfies `okTrace`
+(TraceSpec.lean), for every graph, argument vector, environment behaviour and outcome.  The
+statements below follow from `okTrace` alone (Lemmas/TraceFacts), so they also hold of every trace
+recorded from the real n2 on which the `traceSpec` monitor evaluates to true. -/
+
+/-- **C01 for every invocation**: whenever a command starts — at any point of any `run::build`,
+    whatever happens afterwards — every step that transitively produces one of its explicit,
+    implicit or order-only inputs is `Done` (ran successfully in this invocation or was judged up
+    to date), and the step was not started before in this `Work`. -/
+theorem starts_after_deps_and_once {E : Type} {g : Graph} (gok : GraphOK g) (a : Run.Args) (c : Choices E)
+    (e : E) (b : Nat) (tr' : List Ev) (hs : (.start b :: tr') <:+ (Run.build g a c e).1.trace) :
+    (∀ p, Anc g b p → stOf tr' p = .done) ∧ startedSince tr' b = false := by
+  have ok := okTrace_suffix (Run.build_tinv gok a c e).ok hs
+  exact ⟨fun p hp => (start_after_all_deps ok hp).1, start_once ok⟩
+
+/-- The same for the part of an invocation that follows a manifest reload. -/
+theorem starts_after_deps_and_once_reloaded {E : Type} {g : Graph} (gok : GraphOK g) (a : Run.Args)
+    (c : Choices E) (e : E) (n0 b : Nat) (tr' : List Ev)
+    (hs : (.start b :: tr') <:+ (Run.buildReloaded g a c e n0).1.trace) :
+    (∀ p, Anc g b p → stOf tr' p = .done) ∧ startedSince tr' b = false := by
+  have ok := okTrace_suffix (Run.buildReloaded_tinv gok a c e n0).ok hs
+  exact ⟨fun p hp => (start_after_all_deps ok hp).1, start_once ok⟩
+
+/-- Validation inputs are not ancestors: `Anc` is built from `ordering` only, and the trace
+    specification never looks at `validation`. -/
+theorem anc_ignores_validation (g g' : Graph) (h : ∀ b, (g.build b).ordering = (g'.build b).ordering)
+    (hp : g.producer = g'.producer) {b p : Nat} (ha : Anc g b p) : Anc g' b p := by
+  induction ha with
+  | direct hf hpr => exact .direct (by rw [← h]; exact hf) (by rw [← hp]; exact hpr)
+  | step _ _ ih1 ih2 => exact .step ih1 ih2
+
+/-- Non-vacuity: in the run of `build b: r; build c: r b` the second command does start, and `b`'s
+    step is an ancestor of `c`'s. -/
+example : startedSince (Run.build Ex.g0 Ex.a0 Ex.c0 ()).1.trace 1 = true := by decide
+example : Anc Ex.g0 1 0 := .direct (f := 1) (by decide) (by decide)
 
 end N2V.C01
